@@ -25,8 +25,9 @@ import net_gen
 class HCfg:
     """nodes n0..: n0 (and n1 when `two_srv`) carry the acceptors"""
     def __init__(self, rng, nnodes=None, nat="random", v6_p=0.2, multi_p=0.3, fast_p=0.25, drop_p=0.05, small_cap_p=0.05):
-        self.rng = rng; self.lines = []; self.nodes = []; self.ext = {}
+        self.rng = rng; self.lines = []; self.nodes = []; self.ext = {}; self.pcap_on = False
         n = nnodes or rng.choice([2, 3, 3, 4, 5])
+        if not LOSS: drop_p = 0.0; small_cap_p = 0.0
         v6 = rng.random() < v6_p
         fast = rng.random() < fast_p
         for k in range(n):
@@ -94,6 +95,11 @@ class HCfg:
         return self.v6(node) if six else self.v4(node)
 
 
+# Packet loss (scripted droppers, tail-dropping queues) is outside C07 / C13: SYNs have no retry and the
+# retransmission machinery is C06's. With LOSS = False the configurations of this generator drop nothing and
+# generate() leaves out the net_gen scenarios that contain a dropper.
+LOSS = False
+
 TIMES = [0, 0, 1000, 1000000, 5000000, 50000000, 50000000, 120000000, 300000000, 300000000, 700000000, 1500000000]
 
 
@@ -144,7 +150,9 @@ def client(rng, cfg, P, ids, node, dial, six, ctx, after_refusal_of=None, query_
         if rng.random() < 0.75:
             ips = cfg.fam(node, six)
             bip = rng.choice(ips) if rng.random() < 0.7 else ("::" if six else "0.0.0.0")
-            P.do(ctx, "%s.bind %s" % (cs, ep(bip, ids.p() if rng.random() < 0.7 else 0)))
+            # now and then the same explicit port on several clients (same visible endpoint behind a shared NAT)
+            x = rng.random()
+            P.do(ctx, "%s.bind %s" % (cs, ep(bip, 5000 if x < 0.06 else (ids.p() if x < 0.7 else 0))))
     h = P.h()
     P.do(ctx, "%s.connect %s h%d" % (cs, dial, h))
     if query_now and rng.random() < 0.6: P.do(ctx, "%s.local" % cs)
@@ -388,7 +396,19 @@ def generate(seed, tier, family=None, n=None, mix=None):
     for i in range(n):
         f = fams[i % len(fams)]
         if f.startswith("net:"):
-            out.append(net_gen.scenario(rng, "%s%d" % (f[4], i), f[4:]))
+            x = net_gen.scenario(rng, "%s%d" % (f[4], i), f[4:])
+            if not LOSS and (" dropper " in x or _tail_drops(x)): continue
+            out.append(x)
         else:
             out.append(scenario(rng, "%s%d" % (f[0] if f != "natudp" else "u", i), f))
     return out
+
+
+def _tail_drops(scn):
+    """does any queue of the scenario have a finite capacity small enough to drop TCP segments?"""
+    for ln in scn.split("\n"):
+        if ln.startswith("hop ") and " queue " in ln and " cap=" in ln:
+            try: cap = int(ln.split(" cap=")[1].split()[0])
+            except ValueError: continue
+            if 0 < cap < 100000: return True
+    return False
